@@ -456,6 +456,16 @@ def escape_programs():
         yield ("escape:%s:%s:%s" % (dn, fn, sn), cls + "function main() -> void { qubit pad; %s %s %s %s }\n" % (dsrc, fsrc, ssrc, probes), len(handles))
 
 
+def leaked_handle_programs():
+    """a qubit HANDLE that outlives the object owning the qubit (returned by a method of a local object): the index is released when the
+    owner dies, the handle still names it"""
+    cls = "class Lk { public qubit q; public constructor() -> Lk = default; public function out() -> qubit { return this.q; } }\nfunction mk() -> qubit { Lk t = new Lk(); return t.out(); }\n"
+    fresh = {"object": ("Lk d = new Lk();", ["d.q"]), "scalar": ("qubit d;", ["d"]), "register": ("qubit[2] d;", ["d[0]", "d[1]"])}
+    for fn, (fsrc, handles) in fresh.items():
+        probes = " ".join("echo(measure %s);" % hnd for hnd in handles)
+        yield ("escape:leak:%s:x-via-leaked-handle" % fn, cls + "function main() -> void { qubit pad; qubit s = mk(); %s x(s); %s }\n" % (fsrc, probes), len(handles))
+
+
 def _escape_one(item):
     name, src, nlive = item
     r = vdrv.run_src(src, gc="own", warn=0, want="ops")
@@ -476,7 +486,7 @@ def main(tier):
     global _GEN
     ck = vcheck.Check("C03", "model_checking", tier)
     nesc = 0
-    for name, src, prob in vdrv.pmap(_escape_one, list(escape_programs()), chunksize=4):
+    for name, src, prob in vdrv.pmap(_escape_one, list(escape_programs()) + list(leaked_handle_programs()), chunksize=4):
         nesc += 1
         if prob:
             ck.violation("escape:" + name.split(":")[3] + ":" + prob.split(" ")[0], "%s\ncase %s\nprogram:\n%s" % (prob, name, src), {"tool": "vdrv", "job": {"kind": "run", "opts": {"gc": "own", "warn": 0, "want": "ops"}, "blobs": {"src": src}}})
